@@ -691,6 +691,9 @@ func resolvePlannedField(eCtx *executionContext, parentType *Object, source inte
 	defer func() {
 		if r := recover(); r != nil {
 			handleFieldError(r, FieldASTsToNodeASTs(fp.fieldASTs), path, returnType, eCtx)
+			// a failed field contributes null, never the value the
+			// resolver returned next to its error
+			result = nil
 			ok = true
 		}
 	}()
